@@ -75,6 +75,7 @@ ConvStep(st, it, mode) ==
       settingsOk == /\ (bpmS # <<>> => IsUint(bpmS) /\ NatOfDigits(bpmS) >= 1)
                     /\ (velS # <<>> => velS \in Dynamics)
                     /\ (mtrS # <<>> => mtr.ok /\ mtr.r[1] >= 1 /\ mtr.r[2] >= 1)
+                    /\ (keyS # <<>> => pk.ok /\ (mode = "syllable" => Supported(pk.k)))
       \* settings an event cannot carry (a tempo outside 4..60,000,000, a meter beyond one byte or with a denominator that is no
       \* power of two) may be refused here already; so may a chord symbol that is not a built-in one (text conv has no
       \* dictionary, but a stricter one would be no worse) and a setting name nobody knows
@@ -82,7 +83,6 @@ ConvStep(st, it, mode) ==
                   \/ (mtrS # <<>> /\ mtr.ok /\ (mtr.r[1] > 255 \/ mtr.r[2] \notin {1, 2, 4, 8, 16, 32, 64, 128}))
                   \/ (~it.rest /\ it.sym \notin {SymChars[s] : s \in ChordSymbols})
                   \/ (\E i \in 1..Len(m) : m[i][1] \notin {kBPM, kVEL, kMTR, kKEY, kTXT, kLIC, kMRK})
-                    /\ (keyS # <<>> => pk.ok /\ (mode = "syllable" => Supported(pk.k)))
       key2 == IF keyS # <<>> /\ pk.ok THEN pk.k ELSE st.key          \* the change applies from this chord / rest on
       vals == [i \in 1..Len(it.vals) |->
                  <<IF IsUint(it.vals[i][1]) THEN NatOfDigits(it.vals[i][1]) ELSE 0,
